@@ -64,7 +64,7 @@ Section SimC.
       comp_chain pool rhs (comp pool rhs RAny) o lreg cmpreg resreg st = OK (u, st', c) -> wfst st ->
       dchain (match resreg with None => true | Some _ => false end) o rhs = false ->
       (ip st' = ip st + code_size c /\ ext st st' /\ wfst st' /\ tcount st <= tcount st') /\
-      forall n s rs D prog lv,
+      forall n s rs D prog brk lv,
         known_expr rhs = false ->
         inv st D s rs -> (forall x, D x = true -> reads x rhs = false) ->
         get rs lreg = Some lv -> lreg < tbase st + tcount st ->
@@ -74,7 +74,7 @@ Section SimC.
         cmpreg < tbase st + tcount st ->
         (resreg = None \/ resreg = Some cmpreg) ->
         (is_cmp rhs = true -> forall x, slot_of st x = Some cmpreg -> D x = true /\ assigns x rhs = false) ->
-        tbase st + tused st' <= N.of_nat (length rs) -> code_at prog (ip st) c ->
+        tbase st + tused st' <= N.of_nat (length rs) -> cares prog brk (ip st) c ->
         match eval_chain (eval n) s lv o rhs with
         | ONorm v s' =>
           exists rs', star pool prog (ip st) rs (ip st') rs' /\ length rs' = length rs /\
@@ -141,11 +141,11 @@ Section SimC.
       + eapply ext_trans; [exact EA|apply ext_set_ip].
       + apply wfst_set_ip. assumption.
       + rewrite !code_size_app. cbn [code_size]. lia.
-    - intros n s rs D prog lv K IV RD GL LB LK CL CP CB RC OWN B CA. rewrite EVC. rewrite NX in LK.
-      norm_code CA. apply code_at_app in CA as [CA1 CA2].
+    - intros n s rs D prog brk lv K IV RD GL LB LK CL CP CB RC OWN B CA. rewrite EVC. rewrite NX in LK.
+      norm_code CA. apply cares_app in CA as [CA1 CA2].
       assert (B1 : tbase st + tused st2 <= N.of_nat (length rs)).
       { destruct EM as [(reg & _ & _ & ->)|(_ & _ & ->)]; cbn [tused set_ip] in B; lia. }
-      specialize (DA n s rs D prog K IV RD (dest_ok_any _ _ _ _) B1 CA1).
+      specialize (DA n s rs D prog brk K IV RD (dest_ok_any _ _ _ _) B1 CA1).
       destruct (eval n s rhs) as [rv s1| | | |]; try contradiction; [|exact DA|exact Logic.I].
       destruct DA as (rs1 & S1 & LN1 & IVa & RA & FRa & SFa).
       apply dirty_any in IVa. specialize (RA _ ORR).
@@ -154,7 +154,7 @@ Section SimC.
       destruct EM as [(reg & -> & -> & ->)|(-> & -> & ->)].
       + destruct RC as [RC|RC]; [discriminate|]. inversion RC; subst reg.
         assert (CA2' : code_at prog (ip st2) [ICmp o cmpreg lreg rreg]).
-        { rewrite IA. norm_code CA2. exact CA2. }
+        { apply (cares_one _ brk); [reflexivity|]. rewrite IA. norm_code CA2. exact CA2. }
         pose proof (istep_at pool _ _ _ rs1 CA2') as ST. cbn [exec] in ST.
         unfold with_reg in ST. rewrite GL1, RA in ST.
         destruct (compare o lv rv) as [v|ce] eqn:CV; cbn [put_res] in ST;
@@ -213,19 +213,19 @@ Section SimC.
     - splits; auto.
       + rewrite !code_size_app. cbn [code_size size]. lia.
       + assert (tcount st3a = tcount st2) by reflexivity. lia.
-    - intros n s rs D prog lv K IV RD GL LB LK CL CP CB RC OWN B CA.
+    - intros n s rs D prog brk lv K IV RD GL LB LK CL CP CB RC OWN B CA.
       cbn [eval_chain]. cbn [known_expr] in K. apply orb_false_elim in K as [K Kc].
       apply orb_false_elim in K as [AL Kb]. cbn [next_operand] in LK.
       specialize (OWN eq_refl).
-      norm_code CA. apply code_at_app in CA as [CA1 CA]. apply code_at_cons in CA as [CA2 CA].
-      apply code_at_cons in CA as [CA3 CA4].
+      norm_code CA. apply cares_app in CA as [CA1 CA]. apply cares_cons in CA as [CA2 CA]; [|try reflexivity].
+      apply cares_cons in CA as [CA3 CA4]; [|try reflexivity].
       assert (RDb : forall x, D x = true -> reads x b = false).
       { intros x Dx. apply RD in Dx. cbn in Dx. apply orb_false_elim in Dx. tauto. }
       assert (RDc : forall x, D x = true -> reads x c = false).
       { intros x Dx. apply RD in Dx. cbn in Dx. apply orb_false_elim in Dx. tauto. }
       assert (B1 : tbase st + tused st2 <= N.of_nat (length rs)).
       { pose proof (ext_used _ _ E2'). lia. }
-      specialize (DB n s rs D prog Kb IV RDb (dest_ok_any _ _ _ _) B1 CA1).
+      specialize (DB n s rs D prog brk Kb IV RDb (dest_ok_any _ _ _ _) B1 CA1).
       destruct (eval n s b) as [bv s1| | | |]; try contradiction; [|exact DB|exact Logic.I].
       destruct DB as (rs1 & S1 & LN1 & IVb & RB & FRb & SFb).
       apply dirty_any in IVb. specialize (RB _ OB).
@@ -283,11 +283,11 @@ Section SimC.
         assert (LN2 : length rs2 = length rs) by (rewrite (set_length _ _ _ _ SET); exact LN1).
         assert (B3 : tbase st3a + tused st' <= N.of_nat (length rs2)).
         { rewrite LN2. change (tbase st3a) with (tbase st2). rewrite (ext_tbase _ _ EB). exact B. }
-        assert (CA4' : code_at prog (ip st3a) cc).
-        { match type of CA4 with code_at _ ?pc _ => assert (EQ4 : pc = ip st3a) by (rewrite IP3a, IB; cbn [size]; lia) end.
+        assert (CA4' : cares prog brk (ip st3a) cc).
+        { match type of CA4 with cares _ _ ?pc _ => assert (EQ4 : pc = ip st3a) by (rewrite IP3a, IB; cbn [size]; lia) end.
           rewrite EQ4 in CA4. exact CA4. }
         assert (E3a0 : ext st st3a) by (eapply ext_trans; [exact EB|exact E23a]).
-        specialize (DCc n s1 rs2 D prog bv Kc IV3 RDc GB2).
+        specialize (DCc n s1 rs2 D prog brk bv Kc IV3 RDc GB2).
         assert (H1 : breg < tbase st3a + tcount st3a) by exact BB.
         assert (H2 : forall st2' x, ext st3a st2' -> wfst st2' -> assigns x (next_operand c) = true ->
                                     slot_of st2' x <> Some breg).
@@ -379,9 +379,9 @@ Section SimC.
         * destruct SH as (-> & _). split; [reflexivity|lia].
         * destruct SH as (-> & _). left. split; [reflexivity|lia].
         * destruct SH as (-> & _). split; [reflexivity|lia].
-    - intros n s rs D prog K IV RD DO B CA. destruct n; [exact Logic.I|]. cbn [eval].
+    - intros n s rs D prog brk K IV RD DO B CA. destruct n; [exact Logic.I|]. cbn [eval].
       cbn [known_expr] in K. apply orb_false_elim in K as [K Kb]. apply orb_false_elim in K as [AL Ka].
-      norm_code CA. apply code_at_app in CA as [CA1 CA2].
+      norm_code CA. apply cares_app in CA as [CA1 CA2].
       assert (RDa : forall x, D x = true -> reads x a = false).
       { intros x Dx. apply RD in Dx. cbn in Dx. apply orb_false_elim in Dx. tauto. }
       assert (RDb : forall x, D x = true -> reads x b = false).
@@ -412,7 +412,7 @@ Section SimC.
       assert (B1 : tbase st1' + tused st2 <= N.of_nat (length rs)).
       { pose proof (ext_used _ _ E2'). lia. }
       rewrite <- I1' in CA1.
-      specialize (DA n s rs D prog Ka IV1 RDa (dest_ok_any _ _ _ _) B1 CA1).
+      specialize (DA n s rs D prog brk Ka IV1 RDa (dest_ok_any _ _ _ _) B1 CA1).
       destruct (eval n s a) as [va s1| | | |]; try contradiction; [|rewrite <- I1'; exact DA|exact Logic.I].
       destruct DA as (rs1 & S1 & LN1 & IVa & RA & FRa & SFa).
       apply dirty_any in IVa. specialize (RA _ OL).
@@ -448,8 +448,8 @@ Section SimC.
         - lia. }
       assert (B2 : tbase st2 + tused st3 <= N.of_nat (length rs1)).
       { rewrite LN1, (ext_tbase _ _ E02). exact B. }
-      assert (CA2' : code_at prog (ip st2) cch) by (rewrite IA, I1'; exact CA2).
-      specialize (DC n s1 rs1 DD prog va Kb IVc RDD RA LB LK H3 H4 H5 RES OWN B2 CA2').
+      assert (CA2' : cares prog brk (ip st2) cch) by (rewrite IA, I1'; exact CA2).
+      specialize (DC n s1 rs1 DD prog brk va Kb IVc RDD RA LB LK H3 H4 H5 RES OWN B2 CA2').
       destruct (eval_chain (eval n) s1 va o b) as [v s2| | | |]; try contradiction;
         [|eapply star_stops; [rewrite <- I1'; exact S1|exact DC]|exact Logic.I].
       destruct DC as (rs2 & S2 & LN2 & IV3 & RV & FRc & SFc).
